@@ -437,7 +437,7 @@ class WSGITask(Task):
                         "a WSGI application (see PEP 3333)" % k
                     )
 
-            self.response_headers.extend(headers)
+            self.response_headers.extend([(k, v) for k, v in headers])
 
             # Return a method used to write the response data.
             return self.write
